@@ -209,9 +209,25 @@ def ref_flops(n, seen=None):
     return own + sum(ref_flops(c, seen) for _, c in walk.children(n))
 
 
+def _ambiguous(e):
+    seen = {}
+    for _, n in walk.occurrences(e):
+        if not walk.children(n):
+            continue
+        k = (type(n).__name__, repr(walk.key(n, strict=False)))
+        sk = repr(walk.key(n, strict=True))
+        if seen.setdefault(k, sk) != sk:
+            return True
+    return False
+
+
 def check_count(spec):
     res = Result()
     e = build_shared(spec) if isinstance(spec, list) else build(spec)
+    if _ambiguous(e):
+        # composites that are == but differ in a constant's type are one memoization
+        # key: which of their leaves get counted depends on traversal order
+        return res.skip("count-ambiguous:retyped-composites")
     res.compared()
     try:
         got = get_num_nodes(e)
@@ -307,6 +323,9 @@ def generate(ctx):
     ctx.run_given(S.expr("NUM", 4, FRAG_CNT),
                   lambda s: (ctx.judge("count", s), ctx.judge("flops", s)),
                   ctx.n(1500, 40000))
+    # node counts over every node type the walk mapper handles (slices with zero
+    # bounds, keyword calls, substitutions, ...)
+    ctx.run_given(S.any_expr(4), lambda s: ctx.judge("count", s), ctx.n(2000, 50000))
 
 
 MANIFEST = {
